@@ -148,7 +148,9 @@ def judge_call(ctx, hv, kw, label):
     decidable = len(models) == len(hvsrs) and all(m.decidable for m in models)
     if err is not None:
         # a refusal is legitimate only where the model itself meets an undefined quantity
-        legit = isinstance(err, ValueError) and any(m.undefined for m in models)
+        # ... or takes a decision on a vanishing margin (e.g. all accepted peaks identical: the bounds collapse onto
+        # the mean and the strict comparison may reject every window, after which no mean curve exists)
+        legit = isinstance(err, ValueError) and any(m.undefined or not m.decidable for m in models)
         legit = legit or (isinstance(err, ValueError) and len(models) < len(hvsrs))
         ctx.check(legit, "no-unexpected-error", f"frequency_domain_window_rejection raised {err!r}", **info)
         return None
@@ -181,7 +183,7 @@ def judge_call(ctx, hv, kw, label):
     else:
         ctx.count("ambiguous_or_undefined_runs")
     rejected = sum(int((~h.valid_peak_boolean_mask).sum()) for h in hvsrs)
-    return dict(ret=ret, decidable=decidable, rejected=rejected, models=models)
+    return dict(ret=ret, decidable=decidable, rejected=rejected, models=models, err=err)
 
 
 def gen_kw(rng, f):
@@ -207,17 +209,33 @@ def fam_traditional(ctx, rng):
                         r["ret"], r["rejected"]])
     masks = hv.valid_peak_boolean_mask.copy()
     # metamorphic: permutation of the windows, rescaling of all amplitudes
+    def variant_decidable(hobj, events):
+        """The model must be decidable with comfortable margins on the variant's own data as well (a sum taken in
+        another order can turn an exact zero into 1e-17 and vice versa)."""
+        if not events:
+            return False
+        vw0, vp0 = events[0][1][0]
+        m = MF.run(hobj.frequency, hobj.amplitude, hobj._main_peak_frq, vw0, vp0, kw["n"], kw["max_iterations"],
+                   kw["distribution_fn"], kw["distribution_mc"], kw["search_range_in_hz"])
+        return m.decidable and m.min_margin > 1e-6
+
     perm = rng.permutation(amp.shape[0])
     hp = hvsrpy.HvsrTraditional(f, amp[perm])
-    rp, ep, _, _ = call_fdwra(ctx, hp, kw)
+    rp, ep, evp, _ = call_fdwra(ctx, hp, kw)
     if r["decidable"] and min(m.min_margin for m in r["models"]) > 1e-6:
-        ctx.check(ep is None and rp == r["ret"] and np.array_equal(hp.valid_peak_boolean_mask, masks[perm]),
-                  "permutation-invariant", "decisions change when the windows are permuted", error=repr(ep),
-                  returned=[r["ret"], rp], n=kw["n"])
+        if variant_decidable(hp, evp):
+            ctx.check(ep is None and rp == r["ret"] and np.array_equal(hp.valid_peak_boolean_mask, masks[perm]),
+                      "permutation-invariant", "decisions change when the windows are permuted", error=repr(ep),
+                      returned=[r["ret"], rp], n=kw["n"])
+        else:
+            ctx.count("ambiguous_or_undefined_runs")
         k = int(rng.integers(-10, 11))
         for fac, nm in ((2.0 ** k, f"2^{k}"), (float(10 ** rng.uniform(-3, 3)), "arbitrary")):
             hs = hvsrpy.HvsrTraditional(f, amp * fac)
-            rs, es, _, _ = call_fdwra(ctx, hs, kw)
+            rs, es, evs, _ = call_fdwra(ctx, hs, kw)
+            if not variant_decidable(hs, evs):
+                ctx.count("ambiguous_or_undefined_runs")
+                continue
             ctx.check(es is None and rs == r["ret"] and np.array_equal(hs.valid_peak_boolean_mask, masks),
                       "rescaling-invariant", f"decisions change when all amplitudes are multiplied by {nm}", error=repr(es),
                       returned=[r["ret"], rs], n=kw["n"], factor=fac)
